@@ -770,6 +770,70 @@ fn run_psd_update_tail(r: &Req) -> String {
     Line::out().fs("lam", hp::λ(&k)).fs("lamisqrt", hp::Λisqrt(&k)).fs("r", hp::R(&k)).fs("rinv", hp::Rinv(&k))
         .fs("rrt", hps::workmat1(&k)).fs("hs", &hs).done()
 }
+
+// ---- round 5: `update_scaling` as a whole, LAPACK failures included -------------------------
+use clarabel::verif_hooks::cones::verif_hooks_psdcone_lapack as hpl;
+
+/// `(λ, Λisqrt, R, R⁻¹, packed Hs)` — the scaling state the LAPACK-free functions read
+fn psd_state(k: &PSDTriangleCone<f64>, n: usize) -> [Vec<f64>; 5] {
+    let mut hs = vec![0.0; tri(tri(n))];
+    k.get_Hs(&mut hs);
+    [hp::λ(k).to_vec(), hp::Λisqrt(k).to_vec(), hp::R(k).to_vec(), hp::Rinv(k).to_vec(), hs]
+}
+const PSD_STATE_KEYS: [&str; 5] = ["lam", "lamisqrt", "r", "rinv", "hs"];
+/// a fresh cone, an optional earlier successful update `(s0, z0)`, then `update_scaling(s, z)`:
+/// the flag and the state the cone is left with
+fn run_psd_update_scaling(r: &Req) -> String {
+    let n = r.u("n");
+    let (sv, zv) = (r.fs("s"), r.fs("z"));
+    if !sv.is_empty() && (sv.len() != tri(n) || zv.len() != tri(n)) {
+        return "err:unmodelled-size".into();
+    }
+    let mut k = PSDTriangleCone::<f64>::new(n);
+    if r.has("s0") {
+        k.update_scaling(&r.fs("s0"), &r.fs("z0"), 1.0, PD);
+    }
+    let ok = k.update_scaling(&sv, &zv, 1.0, PD);
+    let st = psd_state(&k, n);
+    let mut l = Line::out().b("ok", ok);
+    for (key, v) in PSD_STATE_KEYS.iter().zip(st.iter()) {
+        l = l.fs(key, v);
+    }
+    l.done()
+}
+fn same_bits(a: &[f64], b: &[f64]) -> bool {
+    a.len() == b.len() && a.iter().zip(b).all(|(x, y)| x.to_bits() == y.to_bits() || (x.is_nan() && y.is_nan()))
+}
+/// independent of the model: a reported LAPACK failure (flags `c1`, `c2`, `svd` of the request,
+/// taken from fresh LAPACK engines) ⇒ `false` and the scaling state is bit for bit the one before
+/// the call; no failure ⇒ `true`; `s` or `z` not positive definite by construction ⇒ `false`.
+fn oracle_psd_update_scaling(r: &Req, out: &str) -> Result<(), String> {
+    let o = Req::parse(&format!("x {}", out)).ok_or("unparsable")?;
+    if !o.has("ok") {
+        return if out.starts_with("err:") { Ok(()) } else { Err(format!("implementation returned {}", out)) };
+    }
+    let ok = o.b("ok");
+    if r.fs("s").is_empty() {
+        return if ok { Ok(()) } else { Err("empty cone: update_scaling returned false".into()) };
+    }
+    let failed = r.u("c1") == 0 || r.u("c2") == 0 || r.u("svd") == 0;
+    if failed {
+        if ok {
+            return Err("update_scaling returned true although a LAPACK call fails on (s,z)".into());
+        }
+        for key in PSD_STATE_KEYS {
+            if !same_bits(&o.fs(key), &r.fs(&format!("{}0", key))) {
+                return Err(format!("failed update_scaling changed the scaling state ({})", key));
+            }
+        }
+    } else if !ok {
+        return Err("update_scaling returned false although every LAPACK call succeeds on (s,z)".into());
+    }
+    if r.str("bad") != "none" && ok {
+        return Err(format!("update_scaling returned true although {} is not positive definite", r.str("bad")));
+    }
+    Ok(())
+}
 fn run_psd_get_hs(r: &Req) -> String {
     let (ok, k) = psd_cone(r);
     if !ok {
@@ -1183,6 +1247,7 @@ fn channels() -> Vec<Channel> {
         ch!("psd.skron", u, run_psd_skron, Some(oracle_psd_skron), true, "psdtrianglecone::skron + pack_triu", "PsdTri.skronPacked / C13.psd_getHs_eq_mulHs"),
         ch!("psd.get_hs", u, run_psd_get_hs, None, true, "PSDTriangleCone::get_Hs (after update_scaling)", "PsdTri.getHs"),
         ch!("psd.update_scaling_tail", PSD_TOL, run_psd_update_tail, None, true, "PSDTriangleCone::update_scaling (after the LAPACK calls)", "PsdTri.assembleScaling / C13.psd_assemble_*"),
+        ch!("psd.update_scaling", PSD_TOL, run_psd_update_scaling, Some(oracle_psd_update_scaling), true, "PSDTriangleCone::update_scaling (whole function; LAPACK results incl. failures as inputs)", "PsdTri.updateScaling / C13.psd_update_scaling_*"),
         ch!("psd.set_identity", u, run_psd_set_identity, None, true, "PSDTriangleCone::set_identity_scaling", "PsdTri.identityScaling"),
         ch!("psd.mul_w", PSD_TOL, run_psd_mul_w, Some(oracle_psd_mul_w), true, "psdtrianglecone::mul_Wx_inner (R)", "PsdTri.mulW"),
         ch!("psd.mul_winv", PSD_TOL, run_psd_mul_winv, Some(oracle_psd_mul_winv), true, "psdtrianglecone::mul_Wx_inner (Rinv)", "PsdTri.mulWinv"),
@@ -1245,8 +1310,16 @@ fn gen_nn(s: &mut Session) {
     let n = if s.rng.bool(0.1) { s.rng.below(2) } else { 1 + s.rng.below(8) };
     let ms = mags(&mut s.rng);
     let mz = if s.rng.bool(0.35) { ms } else { mags(&mut s.rng) };
-    let sv: Vec<f64> = (0..n).map(|_| 10f64.powf(s.rng.uniform(-3.0, 3.0)) * ms).collect();
-    let zv: Vec<f64> = (0..n).map(|_| 10f64.powf(s.rng.uniform(-3.0, 3.0)) * mz).collect();
+    let mut sv: Vec<f64> = (0..n).map(|_| 10f64.powf(s.rng.uniform(-3.0, 3.0)) * ms).collect();
+    let mut zv: Vec<f64> = (0..n).map(|_| 10f64.powf(s.rng.uniform(-3.0, 3.0)) * mz).collect();
+    if s.rng.bool(0.15) && n > 0 {
+        // an inactive inequality near convergence: huge slack, multiplier far below machine
+        // epsilon (s·z = μ stays moderate); guards of the form max(z, ε) change the result here
+        let i = s.rng.below(n);
+        zv[i] = 10f64.powf(s.rng.uniform(-30.0, -16.5));
+        sv[i] = 10f64.powf(s.rng.uniform(-9.0, -6.0)) / zv[i];
+        s.count("nn:tiny-multiplier");
+    }
     let x = anyvec(&mut s.rng, n);
     let y = anyvec(&mut s.rng, n);
     let dz = anyvec(&mut s.rng, n);
@@ -1383,6 +1456,95 @@ fn modvec(rng: &mut Rng, n: usize) -> Vec<f64> {
     (0..n).map(|_| if rng.bool(0.1) { 0.0 } else { rng.normal() * m }).collect()
 }
 
+
+/// `update_scaling` as a whole: success paths and the three LAPACK failure paths (Cholesky of
+/// `S`, of `Z`, SVD), on a fresh cone or after an earlier successful update
+fn gen_psd_update(s: &mut Session) {
+    let n = if s.rng.bool(0.04) { 0 } else { 1 + s.rng.below(4) };
+    let sp = *s.rng.choose(&[1.0, 0.3, 3.0]);
+    let (ms, mz) = (10f64.powf(s.rng.uniform(-1.0, 1.0)), 10f64.powf(s.rng.uniform(-1.0, 1.0)));
+    let mut sv = psd_point(&mut s.rng, n, sp, ms);
+    let mut zv = psd_point(&mut s.rng, n, sp, mz);
+    let diag = |k: usize| (k + 1) * (k + 2) / 2 - 1;
+    let kind = if n == 0 { 0 } else { s.rng.below(9) };
+    let mut bad = "none";
+    match kind {
+        3 => {
+            // negative definite S
+            sv.iter_mut().for_each(|v| *v = -*v);
+            bad = "s";
+        }
+        4 => {
+            // a negative diagonal entry in Z
+            let k = s.rng.below(n);
+            zv[diag(k)] = -zv[diag(k)].abs() - mz;
+            bad = "z";
+        }
+        5 => {
+            let k = s.rng.below(n);
+            sv[diag(k)] = -sv[diag(k)].abs() - ms;
+            zv.iter_mut().for_each(|v| *v = -*v);
+            bad = "sz";
+        }
+        6 => {
+            // a non-finite entry (what a numerical breakdown leaves behind)
+            let v = *s.rng.choose(&[f64::NAN, f64::INFINITY, f64::NEG_INFINITY]);
+            let i = s.rng.below(sv.len());
+            if s.rng.bool(0.5) { sv[i] = v } else { zv[i] = v }
+        }
+        7 => {
+            // finite but huge: the product of the Cholesky factors overflows
+            let e = s.rng.uniform(300.0, 307.5);
+            sv.iter_mut().for_each(|v| *v *= 10f64.powf(e) / ms);
+            zv.iter_mut().for_each(|v| *v *= 10f64.powf(e) / mz);
+        }
+        8 => {
+            // singular S (rank one)
+            let b: Vec<f64> = (0..n).map(|_| s.rng.normal()).collect();
+            let m: Vec<Vec<f64>> = (0..n).map(|i| (0..n).map(|j| b[i] * b[j]).collect()).collect();
+            sv = mat_to_svec(&m);
+        }
+        _ => {}
+    }
+    let mut k = PSDTriangleCone::<f64>::new(n);
+    let prior = s.rng.bool(0.6);
+    let (s0, z0) = (psd_point(&mut s.rng, n, sp, ms), psd_point(&mut s.rng, n, sp, mz));
+    if prior && !k.update_scaling(&s0, &z0, 1.0, PD) {
+        s.count("psd.update_scaling:prior update failed (skipped)");
+        return;
+    }
+    let st0 = psd_state(&k, n);
+    let (c1, c2, sv_ok) = if n == 0 { (true, true, Some(true)) } else { hpl::update_scaling_lapack_ok(n, &sv, &zv) };
+    let all_ok = c1 && c2 && sv_ok == Some(true);
+    if all_ok && kind >= 6 {
+        // non-finite / overflowing / singular data on which LAPACK still reports success: the
+        // assembled numbers are inf/NaN soup, not comparable under a tolerance
+        s.count("psd.update_scaling:degenerate data but LAPACK ok (skipped)");
+        return;
+    }
+    s.count(match (c1, c2, sv_ok) {
+        (true, true, Some(true)) => "psd.update_scaling:success",
+        (true, true, _) => "psd.update_scaling:svd fails",
+        (false, true, _) => "psd.update_scaling:chol(S) fails",
+        (true, false, _) => "psd.update_scaling:chol(Z) fails",
+        (false, false, _) => "psd.update_scaling:chol(S) and chol(Z) fail",
+    });
+    let mut l = Line::new("psd.update_scaling").u("n", n).fs("s", &sv).fs("z", &zv).s("bad", bad)
+        .u("c1", c1 as usize).u("c2", c2 as usize).u("svd", match sv_ok { Some(true) => 1, Some(false) => 0, None => 2 });
+    if prior {
+        l = l.fs("s0", &s0).fs("z0", &z0);
+    }
+    for (key, v) in PSD_STATE_KEYS.iter().zip(st0.iter()) {
+        l = l.fs(&format!("{}0", key), v);
+    }
+    if all_ok && n > 0 {
+        // the LAPACK results themselves, read after the implementation's own update
+        k.update_scaling(&sv, &zv, 1.0, PD);
+        l = l.fs("l1", hps::chol1_L(&k)).fs("l2", hps::chol2_L(&k)).fs("u", hps::svd_U(&k)).fs("vt", hps::svd_Vt(&k)).fs("sig", hps::svd_s(&k));
+    }
+    s.submit(l.done());
+}
+
 /// the PSD functions against the model, with the LAPACK results of the implementation
 fn gen_psd_model(s: &mut Session) {
     let n = if s.rng.bool(0.04) { 0 } else { 1 + s.rng.below(5) };
@@ -1506,6 +1668,9 @@ fn generate(s: &mut Session) {
     }
     for _ in 0..s.budget(800, 6000) {
         gen_psd_model(s);
+    }
+    for _ in 0..s.budget(600, 5000) {
+        gen_psd_update(s);
     }
     for _ in 0..s.budget(2500, 20000) {
         gen_history(s);
